@@ -9,7 +9,7 @@ CONSTANTS
   PatSets = {{1}}
   MaxLines = 4
   CBudSet = {0, 1, 2, 10000}
-  PathSet = {"archive", "cleaner", "host", "helper"}
+  PathSet = {"archive", "cleaner", "host", "helper", "serialized", "serialized-multi"}
 INVARIANT Subsequence
 INVARIANT KeptLinesMatch
 INVARIANT LastMatchKept
